@@ -108,68 +108,62 @@ func (m *vfMem) Write(addr, size, value uint64) error {
 	return nil
 }
 
-// ----- reference semantics (XLEN-generic on uint64) -----
+// ----- reference semantics, written on the package's own register types -----
+// (X = RVUInt, S = RVInt: the same source serves RV32 and RV64, and the
+// solver compares terms of the machine's native width)
+
+type vfX = RVUInt
+type vfSg = RVInt
 
 type vfStepOut struct {
-	known          bool
-	wrRd           bool
-	rdVal          uint64
-	pc             uint64
-	load           bool
-	lAddr, lSize   uint64
-	store          bool
-	sAddr, sSize   uint64
-	sVal           uint64
+	known        bool
+	wrRd         bool
+	rdVal        vfX
+	pc           vfX
+	load         bool
+	lAddr        vfX
+	lSize        uint64
+	store        bool
+	sAddr        vfX
+	sSize        uint64
+	sVal         uint64
 }
 
-func vfSext(v uint64, bits uint) uint64 { return uint64(int64(v<<(64-bits)) >> (64 - bits)) }
+func vfBX(b bool) vfX { return vfX(vfB2U(b)) }
 
-func vfXMask(v uint64) uint64 {
-	if vfXLEN == 32 {
-		return v & 0xffffffff
-	}
-	return v
-}
-
-// signed view of an XLEN-bit register value
-func vfS(v uint64) int64 {
-	if vfXLEN == 32 {
-		return int64(int32(uint32(v)))
-	}
-	return int64(v)
-}
-
-func vfRef(name string, w uint32, x *[32]uint64, pc uint64, mem uint64) vfStepOut {
+func vfRef(name string, w uint32, x *[32]vfX, pc vfX, mem uint64) vfStepOut {
 	rd, rs1, rs2 := w>>7&31, w>>15&31, w>>20&31
-	// x0 reads as zero (branch-free, so the executor does not fork on the register numbers)
-	a := x[rs1] & -vfB2U(rs1 != 0)
-	b := x[rs2] & -vfB2U(rs2 != 0)
+	// x0 reads as zero: read from a copy of the register file whose cell 0 is 0
+	// (no branch on the register numbers, and operands have the same shape as a
+	// register-file read, which keeps division/remainder queries structural)
+	xr := *x
+	xr[0] = 0
+	a, b := xr[rs1], xr[rs2]
 	_ = rd
-	immI := vfSext(uint64(w>>20), 12)
-	immS := vfSext(uint64(w>>25<<5|w>>7&31), 12)
-	immB := vfSext(uint64(w>>31<<12|w>>7&1<<11|w>>25&0x3f<<5|w>>8&0xf<<1), 13)
-	immU := vfSext(uint64(w&0xfffff000), 32)
-	immJ := vfSext(uint64(w>>31<<20|w>>12&0xff<<12|w>>20&1<<11|w>>21&0x3ff<<1), 21)
-	o := vfStepOut{known: true, pc: vfXMask(pc + 4)}
-	set := func(v uint64) { o.wrRd, o.rdVal = true, vfXMask(v) }
-	w32 := func(v uint64) uint64 { return vfSext(v&0xffffffff, 32) }
+	sx := func(v int32) vfX { return vfX(vfSg(v)) } // sign-extend a 32-bit immediate to XLEN
+	immI := sx(int32(w) >> 20)
+	immS := sx(int32(w)>>25<<5 | int32(w>>7&31))
+	immB := sx(int32(w)>>31<<12 | int32(w>>7&1<<11|w>>25&0x3f<<5|w>>8&0xf<<1))
+	immU := sx(int32(w & 0xfffff000))
+	immJ := sx(int32(w)>>31<<20 | int32(w>>12&0xff<<12|w>>20&1<<11|w>>21&0x3ff<<1))
+	o := vfStepOut{known: true, pc: pc + 4}
+	set := func(v vfX) { o.wrRd, o.rdVal = true, v }
+	w32 := func(v uint32) vfX { return vfX(vfSg(int32(v))) } // sign-extended 32-bit result
 	br := func(c bool) {
 		if c {
-			o.pc = vfXMask(pc + immB)
+			o.pc = pc + immB
 		}
 	}
-	ld := func(size uint64, signed bool) {
-		o.load, o.lAddr, o.lSize = true, vfXMask(a+immI), size
-		v := mem & vfSizeMask(size)
-		if signed && size < 8 {
-			v = vfSext(v, uint(8*size))
-		}
-		set(v)
+	ld := func(size uint64) uint64 {
+		o.load, o.lAddr, o.lSize = true, a+immI, size
+		return mem & vfSizeMask(size)
 	}
 	st := func(size uint64) {
-		o.store, o.sAddr, o.sSize, o.sVal = true, vfXMask(a+immS), size, b&vfSizeMask(size)
+		o.store, o.sAddr, o.sSize, o.sVal = true, a+immS, size, uint64(b)&vfSizeMask(size)
 	}
-	shm := uint64(vfXLEN - 1)
+	const shm = XLen - 1
+	minS := vfSg(-1) << (XLen - 1)
+	shamt := uint32(w>>20) & shm
 	switch name {
 	case "LUI":
 		set(immU)
@@ -177,36 +171,36 @@ func vfRef(name string, w uint32, x *[32]uint64, pc uint64, mem uint64) vfStepOu
 		set(pc + immU)
 	case "JAL":
 		set(pc + 4)
-		o.pc = vfXMask(pc + immJ)
+		o.pc = pc + immJ
 	case "JALR":
 		set(pc + 4)
-		o.pc = vfXMask((a + immI) &^ 1)
+		o.pc = (a + immI) &^ 1
 	case "BEQ":
 		br(a == b)
 	case "BNE":
 		br(a != b)
 	case "BLT":
-		br(vfS(a) < vfS(b))
+		br(vfSg(a) < vfSg(b))
 	case "BGE":
-		br(vfS(a) >= vfS(b))
+		br(vfSg(a) >= vfSg(b))
 	case "BLTU":
 		br(a < b)
 	case "BGEU":
 		br(a >= b)
 	case "LB":
-		ld(1, true)
+		set(vfX(vfSg(int8(ld(1)))))
 	case "LH":
-		ld(2, true)
+		set(vfX(vfSg(int16(ld(2)))))
 	case "LW":
-		ld(4, true)
+		set(vfX(vfSg(int32(ld(4)))))
 	case "LBU":
-		ld(1, false)
+		set(vfX(ld(1)))
 	case "LHU":
-		ld(2, false)
+		set(vfX(ld(2)))
 	case "LWU":
-		ld(4, false)
+		set(vfX(ld(4)))
 	case "LD":
-		ld(8, false)
+		set(vfX(ld(8)))
 	case "SB":
 		st(1)
 	case "SH":
@@ -218,9 +212,9 @@ func vfRef(name string, w uint32, x *[32]uint64, pc uint64, mem uint64) vfStepOu
 	case "ADDI":
 		set(a + immI)
 	case "SLTI":
-		set(vfB2U(vfS(a) < vfS(vfXMask(immI))))
+		set(vfBX(vfSg(a) < vfSg(immI)))
 	case "SLTIU":
-		set(vfB2U(a < vfXMask(immI)))
+		set(vfBX(a < immI))
 	case "XORI":
 		set(a ^ immI)
 	case "ORI":
@@ -228,11 +222,11 @@ func vfRef(name string, w uint32, x *[32]uint64, pc uint64, mem uint64) vfStepOu
 	case "ANDI":
 		set(a & immI)
 	case "SLLI":
-		set(a << (uint64(w>>20) & shm))
+		set(a << shamt)
 	case "SRLI":
-		set(a >> (uint64(w>>20) & shm))
+		set(a >> shamt)
 	case "SRAI":
-		set(uint64(vfS(a) >> (uint64(w>>20) & shm)))
+		set(vfX(vfSg(a) >> shamt))
 	case "ADD":
 		set(a + b)
 	case "SUB":
@@ -240,15 +234,15 @@ func vfRef(name string, w uint32, x *[32]uint64, pc uint64, mem uint64) vfStepOu
 	case "SLL":
 		set(a << (b & shm))
 	case "SLT":
-		set(vfB2U(vfS(a) < vfS(b)))
+		set(vfBX(vfSg(a) < vfSg(b)))
 	case "SLTU":
-		set(vfB2U(a < b))
+		set(vfBX(a < b))
 	case "XOR":
 		set(a ^ b)
 	case "SRL":
 		set(a >> (b & shm))
 	case "SRA":
-		set(uint64(vfS(a) >> (b & shm)))
+		set(vfX(vfSg(a) >> (b & shm)))
 	case "OR":
 		set(a | b)
 	case "AND":
@@ -259,19 +253,15 @@ func vfRef(name string, w uint32, x *[32]uint64, pc uint64, mem uint64) vfStepOu
 	case "DIV":
 		switch {
 		case b == 0:
-			set(^uint64(0))
-		case vfS(b) == -1 && vfS(a) == -1<<(vfXLEN-1):
+			set(^vfX(0))
+		case vfSg(b) == -1 && vfSg(a) == minS:
 			set(a)
-		case vfXLEN == 32:
-			set(uint64(uint32(int32(uint32(a)) / int32(uint32(b))))) // same width as the machine, keeps the query structural
 		default:
-			set(uint64(vfS(a) / vfS(b)))
+			set(vfX(vfSg(a) / vfSg(b)))
 		}
 	case "DIVU":
 		if b == 0 {
-			set(^uint64(0))
-		} else if vfXLEN == 32 {
-			set(uint64(uint32(a) / uint32(b)))
+			set(^vfX(0))
 		} else {
 			set(a / b)
 		}
@@ -279,72 +269,68 @@ func vfRef(name string, w uint32, x *[32]uint64, pc uint64, mem uint64) vfStepOu
 		switch {
 		case b == 0:
 			set(a)
-		case vfS(b) == -1 && vfS(a) == -1<<(vfXLEN-1):
+		case vfSg(b) == -1 && vfSg(a) == minS:
 			set(0)
-		case vfXLEN == 32:
-			set(uint64(uint32(int32(uint32(a)) % int32(uint32(b)))))
 		default:
-			set(uint64(vfS(a) % vfS(b)))
+			set(vfX(vfSg(a) % vfSg(b)))
 		}
 	case "REMU":
 		if b == 0 {
 			set(a)
-		} else if vfXLEN == 32 {
-			set(uint64(uint32(a) % uint32(b)))
 		} else {
 			set(a % b)
 		}
 	case "ADDIW":
-		set(w32(a + immI))
+		set(w32(uint32(a) + uint32(immI)))
 	case "SLLIW":
-		set(w32(a << (uint64(w>>20) & 31)))
+		set(w32(uint32(a) << (shamt & 31)))
 	case "SRLIW":
-		set(w32((a & 0xffffffff) >> (uint64(w>>20) & 31)))
+		set(w32(uint32(a) >> (shamt & 31)))
 	case "SRAIW":
-		set(uint64(int64(int32(uint32(a))) >> (uint64(w>>20) & 31)))
+		set(w32(uint32(int32(uint32(a)) >> (shamt & 31))))
 	case "ADDW":
-		set(w32(a + b))
+		set(w32(uint32(a) + uint32(b)))
 	case "SUBW":
-		set(w32(a - b))
+		set(w32(uint32(a) - uint32(b)))
 	case "SLLW":
-		set(w32(a << (b & 31)))
+		set(w32(uint32(a) << (uint32(b) & 31)))
 	case "SRLW":
-		set(w32((a & 0xffffffff) >> (b & 31)))
+		set(w32(uint32(a) >> (uint32(b) & 31)))
 	case "SRAW":
-		set(uint64(int64(int32(uint32(a))) >> (b & 31)))
+		set(w32(uint32(int32(uint32(a)) >> (uint32(b) & 31))))
 	case "MULW":
-		set(w32(a * b))
+		set(w32(uint32(a) * uint32(b)))
 	case "DIVW":
 		a32, b32 := int32(uint32(a)), int32(uint32(b))
 		switch {
 		case b32 == 0:
-			set(^uint64(0))
+			set(^vfX(0))
 		case b32 == -1 && a32 == math.MinInt32:
-			set(uint64(int64(a32)))
+			set(w32(uint32(a32)))
 		default:
-			set(uint64(int64(a32 / b32)))
+			set(w32(uint32(a32 / b32)))
 		}
 	case "DIVUW":
 		if uint32(b) == 0 {
-			set(^uint64(0))
+			set(^vfX(0))
 		} else {
-			set(w32(uint64(uint32(a) / uint32(b))))
+			set(w32(uint32(a) / uint32(b)))
 		}
 	case "REMW":
 		a32, b32 := int32(uint32(a)), int32(uint32(b))
 		switch {
 		case b32 == 0:
-			set(uint64(int64(a32)))
+			set(w32(uint32(a32)))
 		case b32 == -1 && a32 == math.MinInt32:
 			set(0)
 		default:
-			set(uint64(int64(a32 % b32)))
+			set(w32(uint32(a32 % b32)))
 		}
 	case "REMUW":
 		if uint32(b) == 0 {
-			set(w32(a))
+			set(w32(uint32(a)))
 		} else {
-			set(w32(uint64(uint32(a) % uint32(b))))
+			set(w32(uint32(a) % uint32(b)))
 		}
 	default: // MULH, MULHSU, MULHU: 128-bit products, no reference here
 		o.known = false
@@ -365,26 +351,26 @@ func VfH_step() {
 	// free operand bits symbolic, opcode/funct bits constant (so the decoder's table scan is decided by known bits)
 	w := vfU32("inst")&^in.mask | in.value
 	cpu := NewCPU()
-	var x0 [32]uint64
+	var x0 [32]vfX
 	for i := 0; i < 32; i++ {
 		if vfXLEN == 32 {
-			x0[i] = uint64(vfU32(vfRegNames[i]))
+			x0[i] = vfX(vfU32(vfRegNames[i]))
 		} else {
-			x0[i] = vfU64(vfRegNames[i])
+			x0[i] = vfX(vfU64(vfRegNames[i]))
 		}
-		cpu.RegX[i] = RVUInt(x0[i])
+		cpu.RegX[i] = x0[i]
 	}
 	f0bits := vfU64("f0")
 	f1bits := vfU64("f1")
 	cpu.RegF[0] = math.Float64frombits(f0bits)
 	cpu.RegF[1] = math.Float64frombits(f1bits)
-	var pc uint64
+	var pc vfX
 	if vfXLEN == 32 {
-		pc = uint64(vfU32("pc"))
+		pc = vfX(vfU32("pc"))
 	} else {
-		pc = vfU64("pc")
+		pc = vfX(vfU64("pc"))
 	}
-	cpu.PC = RVUInt(pc)
+	cpu.PC = pc
 	mem := &vfMem{inst: w, data: vfU64("mem")}
 	bus := device.NewBus()
 	bus.MapDevice(mem)
@@ -403,7 +389,7 @@ func VfH_step() {
 		return
 	}
 	vfObserve("pc", uint64(cpu.PC))
-	vfAssert(mem.fetch == pc, "step/fetch-address")
+	vfAssert(mem.fetch == uint64(pc), "step/fetch-address")
 	// integer registers as subsequently read (x0 reads as zero)
 	rd := int(w >> 7 & 31)
 	exp := x0
@@ -414,16 +400,16 @@ func VfH_step() {
 	k := vfU8("k") & 31
 	vfAssume(k != 0)
 	vfObserve("xk", uint64(cpu.RegX[k]))
-	okRegs := uint64(cpu.RegX[k]) == exp[k]
+	okRegs := cpu.RegX[k] == exp[k]
 	vfAssert(okRegs, "step/int-registers")
-	vfAssert(uint64(cpu.PC) == ref.pc, "step/pc")
+	vfAssert(cpu.PC == ref.pc, "step/pc")
 	if ref.load {
-		vfAssert(mem.reads == 2 && mem.rAddr == ref.lAddr && mem.rSize == ref.lSize, "step/load-address-and-size")
+		vfAssert(mem.reads == 2 && mem.rAddr == uint64(ref.lAddr) && mem.rSize == ref.lSize, "step/load-address-and-size")
 	} else {
 		vfAssert(mem.reads == 1, "step/no-spurious-load")
 	}
 	if ref.store {
-		vfAssert(mem.writes == 1 && mem.wAddr == ref.sAddr && mem.wSize == ref.sSize && mem.wVal == ref.sVal, "step/memory-write")
+		vfAssert(mem.writes == 1 && mem.wAddr == uint64(ref.sAddr) && mem.wSize == ref.sSize && mem.wVal == ref.sVal, "step/memory-write")
 	} else {
 		vfAssert(mem.writes == 0, "step/no-spurious-store")
 	}
